@@ -85,6 +85,15 @@ func init() { Replay["C11"] = checkC11 }
 var texts11 = []string{
 	"SELECT a FROM t GROUP BY a, a.c",
 	"SELECT o FROM solo GROUP BY o, o.zz",
+	"SELECT deep FROM solo GROUP BY deep, deep.b.c",
+	"SELECT deep FROM solo GROUP BY deep.b.c, deep",
+	"SELECT deep FROM solo GROUP BY deep, deep.b.y.q, deep.b.c",
+	"SELECT x.deep FROM solo x GROUP BY x.deep, x.deep.b.y.w",
+	"SELECT deep FROM t GROUP BY deep.b, deep.b.y.zz",
+	"SELECT a, (SELECT p FROM n) AS s FROM mk",
+	"SELECT a FROM mk WHERE EXISTS (SELECT * FROM n WHERE p > 0)",
+	"SELECT a, (SELECT COUNT(*) AS k FROM n) AS s FROM mk WHERE EXISTS (SELECT * FROM n) OR a > 1",
+	"SELECT * FROM mk WHERE a IN (SELECT p FROM n)",
 	"SELECT o FROM solo GROUP BY o.zz, o",
 	"SELECT x.o FROM solo x GROUP BY x.o, x.o.k.deeper",
 	"SELECT o, COUNT(*) AS c FROM solo GROUP BY o, o.k HAVING COUNT(*) > 0",
@@ -133,7 +142,8 @@ func doc11() map[string]any {
 		for _, p := range ps {
 			n = append(n, map[string]any{"p": p})
 		}
-		return map[string]any{"a": a, "c": a, "g": float64(int(a) % 2), "s": s, "o": map[string]any{"k": k}, "one": map[string]any{"only": s}, "n": n}
+		return map[string]any{"a": a, "c": a, "g": float64(int(a) % 2), "s": s, "o": map[string]any{"k": k}, "one": map[string]any{"only": s}, "n": n,
+			"deep": map[string]any{"b": map[string]any{"x": k, "y": map[string]any{"z": s}}}}
 	}
 	page := func(ps ...float64) []any {
 		out := []any{}
@@ -148,6 +158,8 @@ func doc11() map[string]any {
 		"t":     []any{row(1, "x", 1, 1, 2, 3), row(3, "y", 2), row(2, "x", 2, 5, 6, 7, 8)},
 		"u":     []any{map[string]any{"c": float64(3)}, map[string]any{"c": float64(1)}, map[string]any{"c": float64(9)}},
 		"pages": []any{page(1, 2, 3, 4), page(5, 6), page(7, 8, 9)},
+		// rows that have a key of their own spelled like the engine's back-reference
+		"mk": []any{map[string]any{"a": float64(1), "<-": float64(5), "n": page(1, 2)}, map[string]any{"a": float64(2), "<-": "mine", "n": page()}},
 	}
 }
 
